@@ -20,6 +20,7 @@ package main
 import (
 	"context"
 	"encoding/json"
+	"errors"
 	"flag"
 	"fmt"
 	"os"
@@ -315,6 +316,9 @@ type sched struct {
 // park is called by the running thread (there is exactly one) before every storage / cloud call
 // and before every operation: it hands control back to the scheduler and waits for the next grant.
 func (s *sched) park() {
+	if s == nil {
+		return // sequential (fault-injection) cases run without a scheduler
+	}
 	t := s.current
 	s.events <- event{t: t}
 	<-s.grant[t]
@@ -326,6 +330,16 @@ type gatedStore struct {
 	s    *sched
 	keys map[string]bool
 	ord  []string
+	// single storage-failure injection: the failAt-th storage call (counted from the last reset) fails
+	failAt int
+	calls  int
+}
+
+var errInjected = errors.New("verif: injected storage failure")
+
+func (g *gatedStore) hit() bool {
+	g.calls++
+	return g.failAt > 0 && g.calls == g.failAt
 }
 
 func (g *gatedStore) see(k string) {
@@ -337,51 +351,81 @@ func (g *gatedStore) see(k string) {
 func (g *gatedStore) Set(key string, value any, ttl time.Duration) error {
 	g.s.park()
 	g.see(key)
+	if g.hit() {
+		return errInjected
+	}
 	return g.Storage.Set(key, value, ttl)
 }
 func (g *gatedStore) Get(key string) (any, error) {
 	g.s.park()
 	g.see(key)
+	if g.hit() {
+		return nil, errInjected
+	}
 	return g.Storage.Get(key)
 }
 func (g *gatedStore) Delete(key string) error {
 	g.s.park()
 	g.see(key)
+	if g.hit() {
+		return errInjected
+	}
 	return g.Storage.Delete(key)
 }
 func (g *gatedStore) Exists(key string) (bool, error) {
 	g.s.park()
 	g.see(key)
+	if g.hit() {
+		return false, errInjected
+	}
 	return g.Storage.Exists(key)
 }
 func (g *gatedStore) GetList(key string) ([]any, error) {
 	g.s.park()
 	g.see(key)
+	if g.hit() {
+		return nil, errInjected
+	}
 	return g.Storage.GetList(key)
 }
 func (g *gatedStore) AppendToList(key string, value any) error {
 	g.s.park()
 	g.see(key)
+	if g.hit() {
+		return errInjected
+	}
 	return g.Storage.AppendToList(key, value)
 }
 func (g *gatedStore) RemoveFromList(key string, value any) error {
 	g.s.park()
 	g.see(key)
+	if g.hit() {
+		return errInjected
+	}
 	return g.Storage.RemoveFromList(key, value)
 }
 func (g *gatedStore) Incr(key string) (int64, error) {
 	g.s.park()
 	g.see(key)
+	if g.hit() {
+		return 0, errInjected
+	}
 	return g.Storage.Incr(key)
 }
 func (g *gatedStore) SetNX(key string, value any, ttl time.Duration) (bool, error) {
 	g.s.park()
 	g.see(key)
+	if g.hit() {
+		return false, errInjected
+	}
 	return g.Storage.SetNX(key, value, ttl)
 }
 func (g *gatedStore) CompareAndSwap(key string, oldValue, newValue any, ttl time.Duration) (bool, error) {
 	g.s.park()
 	g.see(key)
+	if g.hit() {
+		return false, errInjected
+	}
 	return g.Storage.CompareAndSwap(key, oldValue, newValue, ttl)
 }
 
@@ -685,6 +729,100 @@ func (w *world) digest(c *tcase) []string {
 	return out
 }
 
+// ---------------------------------------------------------------- single storage-failure cases
+//
+//	c19f now N bases k … pre n op… F k <create-op>   ##   <digest before> | <result> | <digest after>
+//
+// `pre` runs sequentially without failures; then the create runs with its k-th storage call failing once.
+
+type fcase struct {
+	now   int64
+	bases []string
+	pre   []op
+	k     int
+	op    op
+}
+
+func (f *fcase) String() string {
+	var sb strings.Builder
+	fmt.Fprintf(&sb, "c19f now %d bases %d", f.now, len(f.bases))
+	for _, b := range f.bases {
+		sb.WriteString(" " + hx(b))
+	}
+	fmt.Fprintf(&sb, " pre %d", len(f.pre))
+	for _, o := range f.pre {
+		sb.WriteString(" " + o.String())
+	}
+	fmt.Fprintf(&sb, " F %d %s", f.k, f.op.String())
+	return sb.String()
+}
+
+func parseFCase(toks []string) (*fcase, error) {
+	r := &tokReader{toks: toks}
+	f := &fcase{}
+	r.expect("c19f")
+	r.expect("now")
+	f.now = r.num()
+	r.expect("bases")
+	for n := r.num(); n > 0 && r.err == nil; n-- {
+		f.bases = append(f.bases, r.hex())
+	}
+	r.expect("pre")
+	for n := r.num(); n > 0 && r.err == nil; n-- {
+		o, err := parseOp(r.next())
+		if err != nil {
+			return nil, err
+		}
+		f.pre = append(f.pre, o)
+	}
+	r.expect("F")
+	f.k = int(r.num())
+	o, err := parseOp(r.next())
+	if err != nil {
+		return nil, err
+	}
+	f.op = o
+	if r.err != nil {
+		return nil, r.err
+	}
+	if f.op.kind != 'c' || r.i != len(toks) {
+		return nil, fmt.Errorf("bad fault case")
+	}
+	return f, nil
+}
+
+func execFCase(f *fcase) (obs string) {
+	defer func() {
+		if r := recover(); r != nil {
+			obs = "panic:" + strings.ReplaceAll(fmt.Sprint(r), " ", "_")
+		}
+	}()
+	mem := memory.New(context.Background())
+	gs := &gatedStore{Storage: mem, keys: map[string]bool{}}
+	repo := repos.NewHTTPDomainMappingRepository(repos.NewRepository(gs), f.bases)
+	reg := httpservice.NewDomainRegistry(f.bases)
+	deps := &httpservice.ModuleDependencies{HTTPDomainMappingRepo: repo, DomainRegistry: reg}
+	w := &world{repo: repo, proxy: domainproxy.VerifNewForLookup(deps), reg: reg, store: gs}
+	for _, o := range f.pre {
+		w.runOp(o)
+	}
+	uni := &tcase{now: f.now, bases: f.bases, threads: [][]op{append(append([]op{}, f.pre...), f.op)}}
+	before := w.digest(uni)
+	gs.calls, gs.failAt = 0, f.k
+	res := w.runOp(f.op)
+	gs.failAt = 0
+	after := w.digest(uni)
+	mem.Close()
+	return strings.Join(before, " ") + " | " + res + " | " + strings.Join(after, " ")
+}
+
+func emitF(out *vc.Out, f *fcase) {
+	obs := execFCase(f)
+	out.Count("kind:fault-create")
+	out.Count(fmt.Sprintf("fault:k=%d", f.k))
+	out.Case(f.String(), obs, f.String())
+}
+
 // ---------------------------------------------------------------- main
 
 func emit(out *vc.Out, key string, c *tcase, kind string) {
@@ -736,6 +874,15 @@ func replayFile(out *vc.Out, path string) {
 		if strings.HasPrefix(line, "K:") {
 			sp := strings.IndexByte(line, ' ')
 			key, line = line[2:sp], line[sp+1:]
+		}
+		if strings.HasPrefix(line, "c19f ") {
+			f, err := parseFCase(strings.Fields(line))
+			if err != nil {
+				fmt.Fprintln(os.Stderr, "bad corpus line:", err)
+				os.Exit(3)
+			}
+			emitF(out, f)
+			continue
 		}
 		c, err := parseCase(strings.Fields(line))
 		if err != nil {
